@@ -1228,6 +1228,16 @@ pub fn oracle_c20(inv : &Inv) -> Vec<Violation>
     let m = match &inv.model { Ok(m) => m, Err(_) => return out };
     if !inv.errors_as_predicted()
     {
+        // "each failure is reported once": when the build did return its list of errors, the
+        // number of entries must be the number of failures (which errors they are is C04's business)
+        if let (Some(p), Some(a)) = (inv.predicted_errors(), inv.actual_errors())
+        {
+            if p.len() != a.len()
+            {
+                out.push(vio("C20", format!("C20:failure-count:{}", if a.len() < p.len() { "fewer-reported-than-failed" } else { "more-reported-than-failed" }),
+                    format!("op {}: {} rules/leaves fail ({:?}) but {} errors are reported ({:?})", inv.op_index, p.len(), p, a.len(), a)));
+            }
+        }
         return out;    // something else went wrong; C04/C05/C06 report it
     }
     let runs = inv.runs_per_rule();
